@@ -29,7 +29,7 @@ def setup(eng):
     contracts.jacobi_svd_contract(eng, pre=cut_cov)
     contracts.determinant_contract(eng)
 
-HEAVY_3D = ("orthonormal", "symmetric", "semidefinite", "determinant", "land-on-their-targets")
+HEAVY_3D = ("orthonormal", "symmetric", "semidefinite", "determinant", "land-on-their-targets", "trace-of-R")
 
 
 def entries(tier):
